@@ -1,7 +1,10 @@
 (* C12 - Every stored component value is destroyed exactly once and never seen afterwards.  (partial)
-   Proved: in every archetype move the values that leave storage (the [killed] list, which the
-   model hands to the destruction ledger) and the values that stay are together exactly the
-   values that were there plus the inserted one: none destroyed twice, none dropped silently. *)
+   Proved: (1) the row merge conserves the tagged values; (2) each built-in effect, on a consistent
+   world, appends to the destruction ledger exactly the values that leave the storage -
+   stored w' ++ newly destroyed  is a permutation of  stored w ++ newly inserted  - as multisets of
+   (type tag, serial), so also for zero-sized types; (3) dropping the world destroys exactly the
+   stored values, each once.  Not proved as one theorem over whole histories (events in flight carry
+   values too); that part is decided by the ledger monitors and the correspondence on every run. *)
 From Coq Require Import List NArith Permutation.
 Require Import EV.Base EV.Query EV.World EV.ArchProofs.
 
@@ -13,3 +16,41 @@ Theorem c12_partial_move_destroys_exactly_the_values_that_leave :
     Permutation (combine dc dvals ++ killed) (combine sc sv ++ new_pair nw).
 Proof. exact merge_row_conserves. Qed.
 Print Assumptions c12_partial_move_destroys_exactly_the_values_that_leave.
+
+Require Import EV.SlotMap EV.Store EV.Effects EV.Ledger.
+
+(* Insert: the new value enters the storage; if the entity already had the component, exactly the old
+   value is destroyed; nothing else is destroyed or lost, whichever archetypes the entity moves between *)
+Theorem c12_insert_destroys_exactly_the_replaced_value :
+  forall (w : world) (e : key) (loc : eloc) (c : N) (ev : evv) (w' : world),
+    WInv w -> sm_get e (w_ents w) = Some loc -> builtin_effect (KInsert c) ev loc w = ROk tt w' ->
+    exists newdrops, w_drops w' = w_drops w ++ newdrops /\
+      Permutation (stored w' ++ newdrops) (stored w ++ tracked_cv (comp_tag w) ((c, (ev_ser ev, ev_val ev)) :: nil)).
+Proof. exact insert_effect_ledger. Qed.
+Print Assumptions c12_insert_destroys_exactly_the_replaced_value.
+
+Theorem c12_remove_destroys_exactly_the_removed_value :
+  forall (w : world) (e : key) (loc : eloc) (c : N) (ev : evv) (w' : world),
+    WInv w -> sm_get e (w_ents w) = Some loc -> builtin_effect (KRemove c) ev loc w = ROk tt w' ->
+    exists newdrops, w_drops w' = w_drops w ++ newdrops /\ Permutation (stored w' ++ newdrops) (stored w).
+Proof. exact remove_effect_ledger. Qed.
+Print Assumptions c12_remove_destroys_exactly_the_removed_value.
+
+Theorem c12_despawn_destroys_exactly_the_entitys_values :
+  forall (w : world) (e : key) (loc : eloc) (ev : evv) (w' : world),
+    WInv w -> sm_get e (w_ents w) = Some loc -> builtin_effect KDespawn ev loc w = ROk tt w' ->
+    exists newdrops, w_drops w' = w_drops w ++ newdrops /\ Permutation (stored w' ++ newdrops) (stored w).
+Proof. exact despawn_effect_ledger. Qed.
+Print Assumptions c12_despawn_destroys_exactly_the_entitys_values.
+
+Theorem c12_spawn_destroys_nothing :
+  forall (w : world) (ev : evv) (loc : eloc),
+    let w' := WorldFrame.res_world (builtin_effect KSpawn ev loc w) in w_drops w' = w_drops w /\ Permutation (stored w') (stored w).
+Proof. exact spawn_effect_ledger. Qed.
+Print Assumptions c12_spawn_destroys_nothing.
+
+(* dropping the world destroys every stored value exactly once, and nothing else *)
+Theorem c12_world_drop_destroys_exactly_what_is_stored :
+  forall (w : world), w_drops (op_drop w) = w_drops w ++ stored w.
+Proof. exact op_drop_spec. Qed.
+Print Assumptions c12_world_drop_destroys_exactly_what_is_stored.
